@@ -126,6 +126,7 @@ type spkConfig struct {
 	Peers   []metallbv1beta2.BGPPeer
 	Comms   []metallbv1beta1.Community
 	Secrets []v1.Secret
+	BFDs    []metallbv1beta1.BFDProfile
 }
 
 type spkSvcVariant struct {
@@ -149,7 +150,7 @@ type spkNodeVariant struct {
 type spkUniverse struct {
 	Name     string
 	Configs  []spkConfig
-	Svcs     []string // service names (namespace "ns")
+	Svcs     []string // service names (namespace "ns"), or "<namespace>/<name>"
 	SvcVars  []spkSvcVariant
 	EPVars   []spkEPVariant
 	NodeVars map[string][]spkNodeVariant // per node name
@@ -235,9 +236,9 @@ func newSpkSys(u *spkUniverse) *spkSys {
 	for _, pv := range pre {
 		n := u.Svcs[pv[0]]
 		s.store.Put(s.mkSvc(n, u.SvcVars[pv[1]]))
-		s.store.Put(&discovery.EndpointSlice{ObjectMeta: metav1.ObjectMeta{Name: n + "-eps", Namespace: "ns", Labels: map[string]string{discovery.LabelServiceName: n}},
+		s.store.Put(&discovery.EndpointSlice{ObjectMeta: metav1.ObjectMeta{Name: svcName(n) + "-eps", Namespace: svcNS(n), Labels: map[string]string{discovery.LabelServiceName: svcName(n)}},
 			AddressType: discovery.AddressTypeIPv4, Endpoints: u.EPVars[0].EPs})
-		s.svcQ.Add("ns/" + n)
+		s.svcQ.Add(svcKey(n))
 	}
 	return s
 }
@@ -259,7 +260,7 @@ func (s *spkSys) putNode(name string, vi int) {
 }
 
 func (s *spkSys) putConfig(j int) {
-	for _, k := range []string{"IPAddressPool", "L2Advertisement", "BGPAdvertisement", "BGPPeer", "Community", "Secret"} {
+	for _, k := range []string{"IPAddressPool", "L2Advertisement", "BGPAdvertisement", "BGPPeer", "Community", "Secret", "BFDProfile"} {
 		s.store.RemoveAll(k)
 	}
 	c := s.u.Configs[j]
@@ -280,6 +281,9 @@ func (s *spkSys) putConfig(j int) {
 	}
 	for i := range c.Secrets {
 		s.store.Put(c.Secrets[i].DeepCopy())
+	}
+	for i := range c.BFDs {
+		s.store.Put(c.BFDs[i].DeepCopy())
 	}
 	s.cfgIdx = j
 }
@@ -352,13 +356,25 @@ func (s *spkSys) drain() {
 	}
 }
 
+// svcNS / svcName: an entry of Svcs is a service name in namespace "ns", or "<namespace>/<name>"
+func svcNS(n string) string {
+	if i := strings.Index(n, "/"); i >= 0 {
+		return n[:i]
+	}
+	return "ns"
+}
+
+func svcName(n string) string { return n[strings.Index(n, "/")+1:] }
+
+func svcKey(n string) string { return svcNS(n) + "/" + svcName(n) }
+
 func (s *spkSys) svcObj(name string) *v1.Service {
-	o, _ := s.store.Peek("Service", "ns", name).(*v1.Service)
+	o, _ := s.store.Peek("Service", svcNS(name), svcName(name)).(*v1.Service)
 	return o
 }
 
 func (s *spkSys) mkSvc(name string, v spkSvcVariant) *v1.Service {
-	svc := &v1.Service{ObjectMeta: metav1.ObjectMeta{Name: name, Namespace: "ns"}, Spec: v1.ServiceSpec{Type: v.Type,
+	svc := &v1.Service{ObjectMeta: metav1.ObjectMeta{Name: svcName(name), Namespace: svcNS(name)}, Spec: v1.ServiceSpec{Type: v.Type,
 		ExternalTrafficPolicy: v1.ServiceExternalTrafficPolicyTypeCluster, ClusterIP: "192.168.0.9", ClusterIPs: []string{"192.168.0.9"},
 		Ports: []v1.ServicePort{{Port: 80, Protocol: v1.ProtocolTCP}}}}
 	if v.Local {
@@ -398,7 +414,7 @@ func epSig(eps []discovery.Endpoint) string {
 }
 
 func (s *spkSys) epsOf(svc string) []discovery.Endpoint {
-	o, _ := s.store.Peek("EndpointSlice", "ns", svc+"-eps").(*discovery.EndpointSlice)
+	o, _ := s.store.Peek("EndpointSlice", svcNS(svc), svcName(svc)+"-eps").(*discovery.EndpointSlice)
 	if o == nil {
 		return nil
 	}
@@ -681,21 +697,21 @@ func (s *spkSys) Apply(ev verifrt.Event) {
 	case "svc":
 		n := s.u.Svcs[ev.A]
 		s.store.Put(s.mkSvc(n, s.u.SvcVars[ev.B]))
-		s.svcQ.Add("ns/" + n)
+		s.svcQ.Add(svcKey(n))
 	case "delsvc":
 		n := s.u.Svcs[ev.A]
-		s.store.Remove("Service", "ns", n)
-		s.svcQ.Add("ns/" + n)
+		s.store.Remove("Service", svcNS(n), svcName(n))
+		s.svcQ.Add(svcKey(n))
 	case "eps":
 		n := s.u.Svcs[ev.A]
 		v := s.u.EPVars[ev.B]
 		if v.EPs == nil {
-			s.store.Remove("EndpointSlice", "ns", n+"-eps")
+			s.store.Remove("EndpointSlice", svcNS(n), svcName(n)+"-eps")
 		} else {
-			s.store.Put(&discovery.EndpointSlice{ObjectMeta: metav1.ObjectMeta{Name: n + "-eps", Namespace: "ns", Labels: map[string]string{discovery.LabelServiceName: n}},
+			s.store.Put(&discovery.EndpointSlice{ObjectMeta: metav1.ObjectMeta{Name: svcName(n) + "-eps", Namespace: svcNS(n), Labels: map[string]string{discovery.LabelServiceName: svcName(n)}},
 				AddressType: discovery.AddressTypeIPv4, Endpoints: v.EPs})
 		}
-		s.svcQ.Add("ns/" + n)
+		s.svcQ.Add(svcKey(n))
 	case "cfg":
 		s.putConfig(ev.A)
 		s.cfgQ.Add("config")
